@@ -53,7 +53,7 @@ def formatter_for(family):
         return graphtage.csv.CSVFormatter.DEFAULT_INSTANCE
     if family == "plist":
         return graphtage.plist.PLISTFormatter.DEFAULT_INSTANCE
-    if family == "py":
+    if family in ("py", "ast"):
         from graphtage import pydiff
         return pydiff.PyDiffFormatter.DEFAULT_INSTANCE
     raise ValueError(family)
